@@ -351,6 +351,7 @@ def check_order_hash(case, res=None):
         res.traces += nexec
         res.states += len(prefixes)
         res.transitions += nexec * n
+        res.outcomes.add("ref:values=%d:failures=%d:missing=%d" % (len(ref["instances"]), len(ref["exceptions"]), len(ref["missing"])))
     return vio, nexec, len(outcomes)
 
 
